@@ -7,6 +7,7 @@ for d in seeded/*/; do
   prop=$(python3 -c "import json;m=json.load(open('$d/meta.json'));print(m.get('breaks_property') or 'CONTROL')")
   [ "$id" = "c01-freeze-accepts-indexed-outer-write" ] && prop=C17
   git -C /repo apply /verif/$d/patch.diff || { echo "$id APPLY-FAILED"; continue; }
+  if [ "$prop" = "CONTROL" ] && [ -n "$MUTANTS_ONLY" ]; then git -C /repo checkout -- .; continue; fi
   if [ "$prop" = "CONTROL" ]; then
     bad=0
     for P in C01 C02 C05 C09 C11 C12 C14 C17; do
